@@ -935,7 +935,35 @@ def run(ctx):
         n0 = len(ctx.violations)
         r.expr_batch([f"E 100 {hexs(render(t))}" for t in pair_enumeration()], "search: operator pairs", model=False)
         return len(ctx.violations) > n0
+    # translator first: Generated/C08Prec.lean (the printer's and the parser's precedence tables, read
+    # from the source text) must reflect the current source; Props/C08c.lean states their agreement
+    xpath = os.path.join(common.VERIF, "extract", "c08_prec.py")
+    rc_x, out_x = common.sh(["python3", xpath])
     res = common.proof_gate(ctx, search)
+    tables = "not checked"
+    if rc_x != 0:
+        ctx.violation("translator extract/c08_prec.py no longer recognises BinaryOperator::precedence / the parser's climbing chain: " + out_x.strip()[-200:],
+                      {"broken": "extract/c08_prec.py", "log": out_x[-2000:]}, no_input=True)
+        tables = "translator failed"
+    else:
+        rc_ = common.audit("C08c")
+        if rc_["failed"]:
+            _, outp = common.sh(["python3", xpath, "--print"])
+            try:
+                info = json.loads(outp.strip().splitlines()[-1])
+            except Exception:
+                info = {"disagreements": []}
+            wit = info.get("disagreements", [])
+            ctx.violation("the formatter's precedence table (samlang-ast source.rs BinaryOperator::precedence) and the parser's climbing levels (source_parser.rs) no longer agree: "
+                          + ("; ".join(wit[:3]) if wit else "the extracted tables differ from Model/Fmt.lean's pprec / plevel")
+                          + " [theorems of Props/C08c.lean over Generated/C08Prec.lean fail: " + ", ".join(str(n) for n, _ in rc_["failed"][:4]) + "]",
+                          {"broken_theorems": [[str(n), str(w)[:300]] for n, w in rc_["failed"]], "extracted": info, "operator_pairs": wit,
+                           "broken": "Props/C08c.lean (tables_same_partition / tables_same_order / printer_table_is_source / parser_levels_are_source): the tables of Model/Fmt.lean, over which the round-trip theorems are proved, are not the source's"},
+                          no_input=True)
+            tables = "FAILED: " + "; ".join(wit[:3])
+        else:
+            tables = "discharged: " + ", ".join(rc_["discharged"]) + " | " + out_x.strip()
+    ctx.cov["precedence_tables"] = tables
     if any(n == "build" for n, _ in res["failed"]) or not have_bins():
         return ctx.finish(res, trusted=common.TRUSTED_COMMON)
     model_ok = os.path.exists(common.driver_bin("C08")) and not any("driver" in w for _, _, w in ctx.violations)
@@ -1031,6 +1059,7 @@ def run(ctx):
                                    "format_preserves_meaning / eval_regroup (every expression, every interpretation: same value/trap and event order)",
                                    "roundtrip_str (every lexed string literal)", "roundtrip_pattern (every pattern)", "paren_insensitive", "parseFuel_stable",
                                    "roundtrip_expr_in_context", "former_witnesses_roundtrip", "member_name_before_lt",
+                                   "tables_same_partition / tables_same_order / parser_left_associative / printer_table_is_source / parser_levels_are_source (Props/C08c.lean, over the tables extract/c08_prec.py reads from source.rs and source_parser.rs on every run)",
                                    "doc_unions_agree / layout_tokens_every_width / roundtrip_every_width (Props/C08b.lean: every layout alternative of every Union of the expression's document is the token sequence printE e, at every width)"],
         "composed_with_C09": composed, "cli_leg": cli_stats, "size_boundary_leg": size_stats, "list_family_leg": list_stats, "doc_leg": doc_stats,
         "legacy": "Model/Fmt.lean (round-2 fragment with opaque call arguments / if / match; theorems roundtrip_expr_partial, paren_insensitive used by C09b / C13b) is executed next to the full model on every line in its fragment (stats legacy_model_*)",
@@ -1041,6 +1070,7 @@ def run(ctx):
                         "the layout engine is C09's model Model/Doc.lean (tied by C09's protocols and, for expression documents, by the fmt-doc layout comparison here)"]
     return ctx.finish(res, trusted=common.TRUSTED_COMMON + [
         "hand-written models Model/FmtFull.lean (printer arms literal/id, tuple, block with let / expression statements and optional final expression, FieldAccess/MethodAccess/Call chains with argument lists, Unary, Binary incl. ends_with_member_name, IfElse with block branches, Match with cases, Lambda; parser parse_expression/parse_match/parse_if_else, parse_disjunction..parse_factor, parse_unary_expression, parse_function_call_or_field_access incl. the `<`-after-member-name rule and argument lists, parse_base_expression with nested-expression unwrapping, tuples, blocks and lambdas, parse_block / parse_statement), Model/FmtPat.lean (matching_pattern_to_document vs pattern_parser), Model/FmtEval.lean (evaluation semantics) and Model/Fmt.lean (tables; lex_str_lit_opt, unescape_quotes, process_raw_token)",
+        "translator extract/c08_prec.py (regex reading of BinaryOperator::precedence and of the parse_X / parse_X_with_start chain; exits 2 on any other shape)",
         "hand-written model Model/FmtDoc.lean (create_doc without comments) tied node by node by protocol fmt-doc; the driver-built leaf documents (Driver/C08.lean docO, tyDoc, commaSepD)",
         "driver-side character lexer and token grouping of the fragment (Driver/C08.lean lexWords/group: member names with optional `<T>`, match patterns `U(v) ->`, `U ->`, `_ ->`, lambda parameter lists as single units) and the tree dump of harness/src/bin/c08.rs (erases locations, comments, resolved module references, field/tag orders; imports normalised by merge+sort)",
         "not modelled (reparse oracle only): declarations, types, else-if chains, if-let, comments"])
@@ -1471,6 +1501,18 @@ def replay(ctx, path):
     common.build_harness("C08"); common.build_lean(["drv-c08"])
     data = json.load(open(path))
     p = data["replay"]
+    if "operator_pairs" in p or p.get("broken") == "extract/c08_prec.py":
+        # the precedence-table obligation: re-extract from the current source and re-check Props/C08c.lean
+        xpath = os.path.join(common.VERIF, "extract", "c08_prec.py")
+        rc_x, out_x = common.sh(["python3", xpath])
+        print("translator:", out_x.strip()[-300:])
+        if rc_x != 0:
+            return 1
+        ra = common.audit("C08c")
+        _, outp = common.sh(["python3", xpath, "--print"])
+        print("disagreeing operator pairs:", json.loads(outp.strip().splitlines()[-1]).get("disagreements"))
+        print("failed theorems:", [n for n, _ in ra["failed"]])
+        return 1 if ra["failed"] else 0
     if "op" in p and p["op"].startswith("X "):
         impl, model = common.run_pair("C08", [p["op"]])
         a, m = impl[0], model[0]
